@@ -27,13 +27,14 @@ RULE = ("datasets: every point sequence over {0..3} of length 4 plus fixed 5-(th
         "where get_distances(normalize=True) must not disturb later calls. Non-trivial = the train index set is not the identity prefix "
         "(index arrays really select/reorder rows)")
 ASSUMPTIONS = [
-    "quick runs 10 representative metrics (incl. asymmetric and decorated ones), thorough all 47",
+    "quick runs 12 representative metrics (incl. asymmetric and decorated ones), thorough all 47",
     "N <= 5 (quick) / 6 (thorough) rows per dataset",
     "the %.18e text round trip of numpy.savetxt/loadtxt is exact for float64 (trusted)",
 ]
 QUICK_METRICS = ["log_squared_euclidean", "euclidean", "manhattan", "canberra", "kullback_leibler",
-                 "jaccard", "pearson", "chord", "gaussian", "bhattacharyya"]
-# gaussian: d(x, x) = 1, not 0; bhattacharyya: self-distances print as -0.0 or negative numbers
+                 "jaccard", "pearson", "chord", "gaussian", "bhattacharyya", "statistic", "jeffreys"]
+# gaussian: d(x, x) = 1, not 0; bhattacharyya: self-distances print as -0.0 or negative numbers;
+# statistic: antisymmetric; jeffreys: symmetric only up to the last bit
 FIXED = [
     [[0.0, 0.0], [1.0, 0.0], [0.0, 2.0], [3.0, 3.0], [1.0, 0.0]],
     [[0.0, 1.0], [2.0, 2.0], [5.0, 1.0], [5.0, 4.0], [0.5, 0.25]],
